@@ -22,7 +22,14 @@ META = {
     "parameters (C16 covers the arithmetic); pyproj equality assumed to be an equivalence and the CRS-record "
     "well-formedness (WF) is checked on the run's CRS pool, not proved; converting operations "
     "(project/enclosing/crop/tiles/grid_intersect) re-project or read CRS-less operands as pixel coordinates by "
-    "documented design and are modelled separately (conv_never_mixes).",
+    "documented design and are modelled separately (conv_never_mixes).  NOT mirrored in the Lean model (inventory of the "
+    "anchor files): geom.py — force_2d/_geojson_to_shapely/_multigeom (inside the shapely delegate), Geometry.__init__ "
+    "GeoJSON/4326 default, chop_along_antimeridian/projected_lon/clip_lon180 users of intersects/split/multigeom (C07 models "
+    "clip), lonlat_bounds, BoundingBox.transform/buffered/boundary/qr2sample (single operand); crs.py — _make_crs_key/_crs_cache "
+    "(process-global cache; exercised by the cache-poisoning oracle only), CRS.__hash__/pickle/tokenize (C19), CRS.utm/"
+    "_pick_best_crs (uses `&` on a valid-region box), crs_units_per_degree (uses to_crs; C07), the internals of the utm branch "
+    "of norm_crs (zone arithmetic epsg±100); geobox.py — the pixel arithmetic behind pixel_translation (C16), "
+    "GeoBox.from_bbox/from_geopolygon CRS defaulting, footprint, GeoboxTiles._check_linear/_grid_intersect_linear arithmetic.",
     "technique": "Lean 4 proof over hand model + exhaustive differential correspondence with real code",
     "design_ref": "DESIGN.md §4 C01",
 }
@@ -1318,6 +1325,142 @@ def check_spellings(C: Ctx):
                          f"{'the same' if x[1] == y[1] else 'different'} CRS", sig="crs-eq|spelled")
 
 
+# --------------------------------------------------------------------------- structural probe: check before use
+def check_access_order(C: Ctx):
+    """Operands that log every read of their CRS and of their raw coordinates: for each operand after the first, is the
+    CRS looked at before the coordinates are (`C`), or the coordinates first and the CRS in the same pass (`R`, the stream
+    folds)?  `!` = coordinates used (or operand skipped) without its CRS ever being read.  The model's program text
+    (`c01 prog`, `Prog.safe`) predicts the pattern; plain, far-away, empty and NaN operands at every position."""
+    R = C.R
+    gm, gb = C.gmod, C.gbmod
+    from shapely import geometry as sg
+
+    log: List[Tuple[str, int]] = []
+
+    class LGeom(gm.Geometry):
+        def __init__(self, shp, crs, idx):
+            object.__setattr__(self, "_i", idx)
+            super().__init__(shp, crs)
+
+        crs = property(lambda s: (log.append(("c", s._i)), s._c)[1], lambda s, v: object.__setattr__(s, "_c", v))
+        geom = property(lambda s: (log.append(("r", s._i)), s._g)[1], lambda s, v: object.__setattr__(s, "_g", v))
+
+    class LBox(gm.BoundingBox):
+        def __init__(self, box, crs, idx):
+            super().__init__(*box, crs=crs)
+            self._i = idx
+
+        crs = property(lambda s: (log.append(("c", s._i)), s._crs)[1])
+        bbox = property(lambda s: (log.append(("r", s._i)), s._box)[1])
+
+        def __iter__(self):
+            log.append(("r", self._i))
+            return iter(self._box)
+
+        def __getitem__(self, k):
+            log.append(("r", self._i))
+            return self._box[k]
+
+    for _n in ("left", "right", "top", "bottom"):
+        setattr(LBox, _n, property(lambda s, _k={"left": 0, "bottom": 1, "right": 2, "top": 3}[_n]: (log.append(("r", s._i)), s._box[_k])[1]))
+
+    class LGeoBox(gb.GeoBox):
+        def __init__(self, shape, aff, crs, idx):
+            super().__init__(shape, aff, crs)
+            self._i = idx
+
+        crs = property(lambda s: (log.append(("c", s._i)), s._crs)[1])
+        affine = property(lambda s: (log.append(("r", s._i)), s._affine)[1])
+        transform = property(lambda s: (log.append(("r", s._i)), s._affine)[1])
+        shape = property(lambda s: (log.append(("r", s._i)), s._shape)[1])
+
+    kinds, partners = shapes()
+    rel = relations()
+    gbs = geoboxes()
+    nan = float("nan")
+    crs = C.pool.by_label["4326"][2]
+    crs2 = C.pool.by_label["4326wkt2"][2]
+    geom_sets = {"plain": [kinds["polygon"], partners["P"], kinds["polygon+hole"]],
+                 "far@1": [kinds["polygon"], rel["far-line"], partners["P"]],
+                 "near-line@1": [kinds["polygon"], rel["near-line"], partners["P"]],
+                 "line/far-multiline": [kinds["line"], rel["far-multiline"], partners["L"]],
+                 "empty@1": [kinds["polygon"], sg.Polygon(), partners["P"]],
+                 "far@2": [kinds["polygon"], partners["P"], rel["far-box"]]}
+    box_sets = {"plain": [(0.0, 0.0, 2.0, 2.0), (1.0, -1.0, 3.0, 1.5), (0.5, 0.5, 1.0, 4.0)],
+                "nan@1": [(0.0, 0.0, 2.0, 2.0), (nan, nan, nan, nan), (0.5, 0.5, 1.0, 4.0)],
+                "nan@2": [(0.0, 0.0, 2.0, 2.0), (1.0, -1.0, 3.0, 1.5), (nan, nan, nan, nan)],
+                "inverted@1": [(0.0, 0.0, 2.0, 2.0), (2.0, 2.0, 1.0, 0.5), (0.5, 0.5, 1.0, 4.0)],
+                "far@1": [(0.0, 0.0, 2.0, 2.0), (5e5, 6e6, 5.1e5, 6.1e6), (0.5, 0.5, 1.0, 4.0)]}
+    gbox_sets = {"plain": ["g0", "shift", "far"], "empty@1": ["g0", "empty-rows", "shift"], "empty@2": ["g0", "shift", "empty-both"],
+                 "far-aligned@1": ["g0", "far-aligned", "shift"]}
+    for name, sp in C.specs.items():
+        fam = name.split(".")[0]
+        n = 2 if sp["arity"] == "2" else 3
+        if fam == "Geometry" or (fam == "geom" and "bbox" not in name):
+            sets = {k: [LGeom(shp, crs if i != 1 else crs2, i) for i, shp in enumerate(v[:n])] for k, v in geom_sets.items()}
+        elif fam == "BoundingBox" or "bbox" in name:
+            sets = {k: [LBox(b, crs if i != 1 else crs2, i) for i, b in enumerate(v[:n])] for k, v in box_sets.items()}
+        else:
+            sets = {k: [LGeoBox(gbs[g][0], gbs[g][1], crs if i != 1 else crs2, i) for i, g in enumerate(v[:n])]
+                    for k, v in gbox_sets.items()}
+        for sk, objs in sets.items():
+            del log[:]
+            try:
+                with warnings.catch_warnings():
+                    warnings.simplefilter("ignore")
+                    C.real.call(name, objs)
+            except Exception:  # pylint: disable=broad-except
+                continue  # the delegate refused these shapes: no complete pass to look at
+            ev = list(log)
+            pat = ""
+            for j in range(1, n):
+                ci = next((k for k, e in enumerate(ev) if e == ("c", j)), None)
+                ri = next((k for k, e in enumerate(ev) if e == ("r", j)), None)
+                pat += "!" if ci is None else ("C" if (ri is None or ci < ri) else "R")
+            out = R.corr(f"c01 access {name} {n}", lambda pat=pat: pat, sig=f"access|{sk}")
+            R.oracle("!" not in pat, f"operand-crs-never-read:{name}",
+                     {"op": name, "operands": sk, "events": ["%s%d" % e for e in ev][:40]},
+                     f"{name} ({sk} operands): operand(s) {[j for j in range(1, n) if pat[j - 1] == '!']} took part without their "
+                     f"CRS ever being read (access order {' '.join('%s%d' % e for e in ev)[:200]})", sig="access|unchecked")
+
+
+def check_norm_crs(C: Ctx):
+    from odc.geo.crs import norm_crs, norm_crs_or_error
+    from odc.geo.types import Unset
+
+    R = C.R
+    gm = C.gmod
+    ctx = gm.point(15.0, 47.0, "EPSG:4326")
+    c = C.pool.by_label["3857"][2]
+    from .c01_spellings import Duck
+
+    inputs = [("none", None, None), ("unset", Unset(), None), ("odc", c, None), ("odc", c, ctx),
+              ("utm+ctx", "utm", ctx), ("utm+ctx", "UTM-N", ctx), ("utm+ctx", "utm-s", ctx), ("utm", "utm", None), ("utm", "Utm-S", None),
+              ("spec", "EPSG:4326", None), ("spec", 32633, ctx), ("spec", {"proj": "utm", "zone": 33, "datum": "WGS84"}, None),
+              ("spec", Duck(wkt=c.to_wkt()), None), ("badspec", "not a crs at all", None), ("badspec", object(), None),
+              ("badspec", Duck(epsg=4326, string="EPSG:4326"), None), ("badspec", 3.5, None)]
+    for kind, spec, cx in inputs:
+        for orerr, fn in ((False, norm_crs), (True, norm_crs_or_error)):
+            def f(spec=spec, cx=cx, fn=fn):
+                try:
+                    with warnings.catch_warnings():
+                        warnings.simplefilter("ignore")
+                        out = fn(spec, cx) if cx is not None else fn(spec)
+                except Exception as e:  # pylint: disable=broad-except
+                    return "ERR:CRSError" if type(e).__name__ == "CRSError" else err_str(e)
+                if out is None:
+                    return "None"
+                if out is spec:
+                    return "same"
+                if isinstance(spec, str) and spec.lower().startswith("utm"):
+                    ok = out.proj.utm_zone is not None and (not spec.lower().endswith("-s") or out.proj.utm_zone.endswith("S")) \
+                        and (not spec.lower().endswith("-n") or out.proj.utm_zone.endswith("N"))
+                    return "utm" if ok else "utm?wrong-zone"
+                return "constructed"
+
+            R.corr(f"c01 normcrs {kind} {bool_s(orerr)}", f, sig=f"normcrs|{kind}")
+
+
 # --------------------------------------------------------------------------- numeric options in every numeric spelling
 def check_numeric_spellings(C: Ctx):
     """`tol` of overlap_roi / bounding_box_in_pixel_domain: a numpy scalar, 0-d array, int, Fraction or Decimal must
@@ -1436,6 +1579,8 @@ def run(R: Run):
     gen_bbox_exact(C)
     check_conv_eq(C)
     check_numeric_spellings(C)
+    check_access_order(C)
+    check_norm_crs(C)
     R.exhaustive = False
     R.extra["ops_in_table"] = len(C.specs)
     R.extra["ops_discovered"] = len(found)
